@@ -457,7 +457,7 @@ func runC14(r *core.Run) {
 		for _, e := range m.Entries {
 			d := fmt.Sprintf("%x", e.Digest)
 			if seenP[e.Path] || seenD[d] {
-				r.Fail("stale-manifest-lost-update", "duplicate-entry", "%s: head manifest lists %q / digest %s... twice", where, e.Path, d[:12])
+				r.Fail("stale-manifest-lost-update", "duplicate-entry", "%s: head manifest lists %q / digest %s... twice", where, e.Path, core.Short(d, 12))
 			}
 			seenP[e.Path], seenD[d] = true, true
 			if e.Path == "c14.binarypb" {
